@@ -263,7 +263,8 @@ Section RingList.
     let r1 := walk_spec (sp_cw faces) (-1) n c0 0 si0 in
     let si2 := if snd r1 then fst (walk_spec (sp_ccw faces) 1 n c0 0 (fst r1)) else fst r1 in
     exists l, sort_by (fun a b => key_of si2 a <=? key_of si2 b) cs = l
-              /\ (forall c, In c l <-> In c cs) /\ ring_props l.
+              /\ (forall c, In c l <-> In c cs) /\ ring_props l
+              /\ incr (key_of si2) l /\ (forall c, In c l -> zget c si2 <> None).
   Proof.
     intros cs Hn Hsame Hval (Hn0 & Hc0 & Hr0) si0 n r1 si2.
     assert (Hperm : Permutation cs l0).
@@ -294,15 +295,18 @@ Section RingList.
       assert (Er1 : r1 = (assign w 0 (-1) si0, false)).
       { unfold r1. rewrite <- Hwlen, Ew. rewrite Ew in Hchain. apply (walk_closed _ _ _ _ _ _ c0 Hchain Hlast). }
       unfold si2. rewrite Er1. cbn [fst snd].
-      exists l'. split; [|split].
-      + apply sort_by_unique.
-        * eapply Permutation_trans; [exact Hperm|exact Hp'].
-        * assert (Hnw : NoDup w) by (unfold w; apply NoDup_rev, Hn').
-          destruct (assign_decr w Hnw 0 si0) as (I1 & _). unfold w in I1 at 2. rewrite rev_involutive in I1. exact I1.
+      assert (Hincr : incr (key_of (assign w 0 (-1) si0)) l').
+      { assert (Hnw : NoDup w) by (unfold w; apply NoDup_rev, Hn').
+        destruct (assign_decr w Hnw 0 si0) as (I1 & _). unfold w in I1 at 2. rewrite rev_involutive in I1. exact I1. }
+      exists l'. split; [|split; [|split; [|split]]].
+      + apply sort_by_unique; [|exact Hincr].
+        eapply Permutation_trans; [exact Hperm|exact Hp'].
       + intros c. rewrite <- Hsame. split; intros H.
         * eapply Permutation_in; [apply Permutation_sym, Hp'|exact H].
         * eapply Permutation_in; [exact Hp'|exact H].
       + split; [exact Hn'|]. split; [exact Hc'|]. left. exact Hr'.
+      + exact Hincr.
+      + intros c Hc. apply assign_some. unfold w. apply -> in_rev. exact Hc.
     - (* border vertex: clockwise to the border, then counter-clockwise to the other border *)
       rewrite El0 in Hc0, Hopen, Hn0.
       assert (Hcpre : chain_cw faces (pre ++ [c0])).
@@ -345,9 +349,8 @@ Section RingList.
       assert (Hnwcw : NoDup wcw) by (rewrite Ewcw; apply NoDup_rev, Hn1).
       destruct (assign_decr wcw Hnwcw 0 si0) as (D1 & D2 & D3). fold si1 in D1, D2, D3.
       destruct (assign_incr wccw Hn2 0 si1) as (U1 & U2 & U3 & U4). fold sif in U1, U2, U3, U4.
-      exists (pre ++ c0 :: post). split; [|split].
-      + apply sort_by_unique; [rewrite <- El0; exact Hperm|].
-        replace (pre ++ c0 :: post) with ((pre ++ [c0]) ++ post) by (rewrite <- app_assoc; reflexivity).
+      assert (Hincr : incr (key_of sif) (pre ++ c0 :: post)).
+      { replace (pre ++ c0 :: post) with ((pre ++ [c0]) ++ post) by (rewrite <- app_assoc; reflexivity).
         apply incr_app.
         * rewrite Ewcw, rev_involutive in D1. eapply incr_ext; [|exact D1].
           intros a Ha. apply in_app_or in Ha as [Ha|[<-|[]]].
@@ -359,13 +362,29 @@ Section RingList.
           assert (Ek : key_of sif a = key_of si1 a).
           { unfold sif, key_of. rewrite assign_other; [reflexivity|]. apply Hdisj, Ha. }
           assert (Hin : In a wcw) by (unfold wcw; right; apply -> in_rev; exact Ha).
-          specialize (D2 a Hin). unfold sif, si1, wccw, wcw in *; lia.
+          specialize (D2 a Hin). unfold sif, si1, wccw, wcw in *; lia. }
+      exists (pre ++ c0 :: post). split; [|split; [|split; [|split]]].
+      + apply sort_by_unique; [rewrite <- El0; exact Hperm|exact Hincr].
       + intros c. rewrite <- El0. apply Hsame.
       + rewrite <- El0 in *. split; [exact Hn0|]. split; [exact Hc0|]. right. exact Hopen.
+      + exact Hincr.
+      + intros c Hc. apply in_app_or in Hc as [Hc|Hc].
+        * unfold sif. rewrite assign_other by (apply Hdisj, Hc). apply assign_some. unfold wcw. right. apply -> in_rev. exact Hc.
+        * apply assign_some. exact Hc.
   Qed.
 End RingList.
 
 (* ------------------------------------------------------------------ _sort_vertex_neighborhoods on the tables *)
+(* key of a neighbour v of A in the vertex sort: index of the corner of half-edge A->v, None (= -inf) without one *)
+Definition vkey (faces : list (list Z)) (si2 : zmap Z) (A v : Z) : Z * option Z :=
+  (v, match option_map cid (sp_he faces A v) with Some c => zget c si2 | None => None end).
+
+(* what the vertex sort leaves for vertex A whose sorted corner ring is l and whose neighbour list was adjA *)
+Definition vsorted (faces : list (list Z)) (A : Z) (l adjA vs : list Z) : Prop :=
+  Permutation vs adjA /\ (l = [] -> vs = adjA)
+  /\ (l <> [] -> exists si2, incr (key_of si2) l /\ (forall c, In c l -> zget c si2 <> None)
+                   /\ vs = map fst (sort_by (fun a b => okey_leb (snd a) (snd b)) (map (vkey faces si2 A) adjA))).
+
 Section SortVertex.
   Variable nv : Z.
   Variable faces : list (list Z).
@@ -379,16 +398,16 @@ Section SortVertex.
     zget A (t_adjV2Cn T) = Some (corners_at faces A) -> zget A (t_adjV2V T) = Some adjA ->
     (exists l0, ring_spec faces A l0) ->
     exists T', sort_vertex T A = Ok T' /\ same4 T T'
-      /\ (exists l, zget A (t_adjV2Cn T') = Some l /\ ring_spec faces A l)
-      /\ (exists vs, zget A (t_adjV2V T') = Some vs /\ Permutation vs adjA)
+      /\ (exists l vs, zget A (t_adjV2Cn T') = Some l /\ ring_spec faces A l
+                       /\ zget A (t_adjV2V T') = Some vs /\ vsorted faces A l adjA vs)
       /\ (forall B, B <> A -> zget B (t_adjV2Cn T') = zget B (t_adjV2Cn T) /\ zget B (t_adjV2V T') = zget B (t_adjV2V T)).
   Proof.
     intros HT Ecs Eadj (l0 & Hn0 & Hsame0 & Hc0 & Hr0).
     unfold sort_vertex. rewrite Ecs. cbn [of_opt bind].
     destruct (corners_at faces A) as [|c0 rest] eqn:Ecorn.
-    - exists T. split; [reflexivity|]. split; [repeat split|]. split; [|split].
-      + exists []. split; [exact Ecs|]. apply ring_spec_nil, Ecorn.
-      + exists adjA. split; [exact Eadj|apply Permutation_refl].
+    - exists T. split; [reflexivity|]. split; [repeat split|]. split.
+      + exists [], adjA. split; [exact Ecs|]. split; [apply ring_spec_nil, Ecorn|]. split; [exact Eadj|].
+        split; [apply Permutation_refl|]. split; [reflexivity|congruence].
       + intros B _. split; reflexivity.
     - set (cs := c0 :: rest) in *.
       set (si0 := fold_left (fun m c => zset c 0 m) cs zempty).
@@ -398,10 +417,10 @@ Section SortVertex.
         apply corners_at_In in Hc' as (x & Hx & E & _). exists x. auto. }
       assert (Hncs : NoDup cs) by (rewrite <- Ecorn; apply NoDup_corners_at).
       destruct (ring_sorted_list nv faces Hwf c0 rest l0 Hncs Hsame0 Hval (conj Hn0 (conj Hc0 Hr0)) si0)
-        as (l & Esort & Hsame & (Hn & Hc & Hr)).
-      change (c0 :: rest) with cs in Esort.
+        as (l & Esort & Hsame & (Hn & Hc & Hr) & Hincr & Hsome).
+      change (c0 :: rest) with cs in Esort, Hincr, Hsome.
       destruct (walk_spec (sp_cw faces) (-1) (length cs) c0 0 si0) as [si1 b] eqn:Ew1.
-      cbn [fst snd] in Esort.
+      cbn [fst snd] in Esort, Hincr, Hsome.
       assert (Esi2 : (if b
                       then do r2 <- walk T ccw_steps_before_test ccw_steps_after_test ccw_delta (length cs) c0 0 si1; Ok (fst r2)
                       else Ok si1)
@@ -415,13 +434,14 @@ Section SortVertex.
       2:{ intros v _. unfold he_get_default, key_half_edge_to_corner, key_vertex_sort. cbn [fst snd].
           rewrite (he_lookup_T nv faces T HT). unfold g. destruct (sp_he faces A v); reflexivity. }
       cbn [bind]. eexists. split; [reflexivity|]. split; [repeat split|].
-      cbn [t_adjV2Cn t_adjV2V]. split; [|split].
-      + exists l. split; [rewrite zget_zset_same; f_equal; exact Esort|].
-        split; [exact Hn|]. split; [|split; assumption].
-        intros c. rewrite Ecorn. apply Hsame.
-      + eexists. split; [apply zget_zset_same|].
-        eapply Permutation_trans; [apply Permutation_map, sort_perm_gen|].
-        rewrite map_map. unfold g. cbn [fst]. rewrite map_id. apply Permutation_refl.
+      cbn [t_adjV2Cn t_adjV2V]. split.
+      + exists l. eexists. split; [rewrite zget_zset_same; f_equal; exact Esort|]. split.
+        { split; [exact Hn|]. split; [|split; assumption]. intros c. rewrite Ecorn. apply Hsame. }
+        split; [apply zget_zset_same|]. split; [|split].
+        * eapply Permutation_trans; [apply Permutation_map, sort_perm_gen|].
+          rewrite map_map. unfold g. cbn [fst]. rewrite map_id. apply Permutation_refl.
+        * intros ->. exfalso. assert (Hin : In c0 []) by (apply Hsame; left; reflexivity). destruct Hin.
+        * intros _. exists si2. split; [exact Hincr|]. split; [exact Hsome|]. reflexivity.
       + intros B NB. rewrite !zget_zset_other by exact NB. split; reflexivity.
   Qed.
 End SortVertex.
@@ -450,8 +470,8 @@ Section SortAll.
   Lemma compute_sorted_spec :
     exists T, compute_connectivity m true = Ok T /\ tspec4 nv faces T /\
       forall A, 0 <= A < nv ->
-        (exists l, zget A (t_adjV2Cn T) = Some l /\ ring_spec faces A l)
-        /\ (exists vs, zget A (t_adjV2V T) = Some vs /\ Permutation vs (nbrs (m_edges m) A)).
+        exists l vs, zget A (t_adjV2Cn T) = Some l /\ ring_spec faces A l
+                     /\ zget A (t_adjV2V T) = Some vs /\ vsorted faces A l (nbrs (m_edges m) A) vs.
   Proof.
     destruct Hwf as (Hwff & Hrings).
     destruct (compute_unsorted_spec nv faces m Hwff Hm) as (T0 & E0 & S0).
@@ -459,8 +479,8 @@ Section SortAll.
     set (I := fun (pre : list Z) (T' : tables) =>
       same4 T0 T'
       /\ (forall A, In A pre -> 0 <= A < nv ->
-            (exists l, zget A (t_adjV2Cn T') = Some l /\ ring_spec faces A l)
-            /\ (exists vs, zget A (t_adjV2V T') = Some vs /\ Permutation vs (nbrs (m_edges m) A)))
+            exists l vs, zget A (t_adjV2Cn T') = Some l /\ ring_spec faces A l
+                         /\ zget A (t_adjV2V T') = Some vs /\ vsorted faces A l (nbrs (m_edges m) A) vs)
       /\ (forall A, ~ In A pre -> zget A (t_adjV2Cn T') = zget A (t_adjV2Cn T0)
                                  /\ zget A (t_adjV2V T') = zget A (t_adjV2V T0))).
     destruct (foldM_inv sort_vertex I (zrange nv) T0) as (T & ET & (I1 & I2 & I3)).
@@ -473,7 +493,7 @@ Section SortAll.
       destruct (J3 x Hnx) as (K1 & K2).
       assert (HT' : tspec4 nv faces T') by (exists T0, (m_edges m); split; assumption).
       assert (Hr : in_range nv x = true) by (unfold in_range; lia).
-      destruct (sort_vertex_spec nv faces Hwff T' x (nbrs (m_edges m) x) HT') as (T'' & E'' & S'' & R1' & R2' & R3').
+      destruct (sort_vertex_spec nv faces Hwff T' x (nbrs (m_edges m) x) HT') as (T'' & E'' & S'' & R1' & R3').
       + rewrite K1, (ts_v2c _ _ _ _ S0), Hr. reflexivity.
       + rewrite K2, (ts_v2v _ _ _ _ S0), Hr. reflexivity.
       + apply Hrings, Hx.
@@ -481,7 +501,7 @@ Section SortAll.
         * intros A HA HrA. apply in_app_or in HA as [HA|[<-|[]]].
           -- assert (NA : A <> x) by (intros ->; contradiction).
              destruct (R3' A NA) as (Q1 & Q2). rewrite Q1, Q2. apply J2; assumption.
-          -- split; assumption.
+          -- exact R1'.
         * intros A HA. assert (NA : A <> x) by (intros ->; apply HA; apply in_or_app; right; left; reflexivity).
           destruct (R3' A NA) as (Q1 & Q2). rewrite Q1, Q2. apply J3. intros Hin. apply HA. apply in_or_app. left. exact Hin.
     - exists T. split; [exact ET|]. split; [exists T0, (m_edges m); split; assumption|].
